@@ -58,6 +58,8 @@ pub enum Elem {
     F32,
     /// `yelem::Yf`: an f64 newtype whose operators are yield points (the numeric-type seam)
     Yf,
+    /// integer data, axes and queries (the crate is generic over `Num`; its tests use `i32`)
+    I64,
 }
 
 #[derive(Serialize, Deserialize, Clone, Copy, Debug, PartialEq, Eq, PartialOrd, Ord)]
